@@ -572,7 +572,7 @@ def check_harness(prop, h, tier, scratch, log):
         undef = [u for u in undef0 if u not in ALLOWED_UNDEF and not u.startswith('__CPROVER') and not u.startswith('nondet_')]
         R.info['undefined_functions'] = undef
         allowed = set(getattr(h, 'allow_undef', []) or [])
-        bad = [u for u in undef if u not in allowed and u not in CBMC_BUILTIN]
+        bad = [] if h.allow_undef == ['*'] or h.allow_undef == list('*') else [u for u in undef if u not in allowed and u not in CBMC_BUILTIN]
         if bad:
             raise Fault('harness %s reaches functions without body (would be nondet stubs): %s' % (h.name, ', '.join(bad[:20])))
         # ---------------- translation validation (E2)
